@@ -28,6 +28,8 @@ const POOL: &[&str] = &[
     // token-less rules (every token is a single character): all land in the wildcard bucket, so
     // rules with equal masks fuse; the texts contain one another away from the anchor
     "/a|", "/a.b|", ".b|", "/a", "/a.b", "@@/a|", "@@/a.b|", "/a*b|", "/a*b.c|",
+    // two left-anchored wildcard rules in one bucket (a fused rule must keep every member anchored)
+    "|https://x.com/a*b", "|https://x.com/a*c",
     // same bucket, masks that differ in exactly one bit the existing pairs do not cover
     // empty patterns (match everything) next to token-less partners with the same mask
     "*$image", "$image", "/a*b$image", "/a$image", "a^$image", "/a.b|$image",
@@ -36,7 +38,7 @@ const POOL: &[&str] = &[
 
 fn requests() -> Vec<Req> {
     let mut out = vec![];
-    let paths = ["/", "/adv", "/advert", "/advice", "/adv/x", "/advx", "/adv1", "/ADV", "/xadv", "/adv?q=1", "/advert?q=1&r=2", "/advice/", "/adv.js", "/x/advert/y", "/advertx", "/ad", "/a", "/a.b", "/a.b/", "/xa", "/a1b.c", "/a1b"];
+    let paths = ["/", "/adv", "/advert", "/advice", "/adv/x", "/advx", "/adv1", "/ADV", "/xadv", "/adv?q=1", "/advert?q=1&r=2", "/advice/", "/adv.js", "/x/advert/y", "/advertx", "/ad", "/a", "/a.b", "/a.b/", "/xa", "/a1b.c", "/a1b", "/a1b/x", "/a1b.c/x", "/r?u=https://x.com/a1c", "/r?u=https://x.com/a1b"];
     for host in ["x.com", "adv.net", "sub.adv.net"] {
         for p in paths {
             for (src, ty) in [("https://x.com/", "script"), ("https://y.com/", "script"), ("https://x.com/", "image"), ("https://y.com/", "subdocument"), ("", "document")] {
